@@ -714,6 +714,7 @@ def build(p):
   D = 'native/C19.py'
   p.native('maybe_download', D, 'download')
   p.native('maybe_lzma_decompress', D, 'lzma')
+  p.native('maybe_lzma_decompress[', D, 'lzma_truncated')
   p.native('validate_file', D, 'validate')
   v_download(p)
   v_lzma(p)
